@@ -8,11 +8,13 @@ import asm2c
 LEVEL = "translation_validation"
 LOGIC = ["and_n", "andn_n", "nand_n", "ior_n", "iorn_n", "nior_n", "xor_n", "xnor_n"]
 CLASSES = {"add_n": (1, 0), "sub_n": (1, 1), "karasub": (2, 1), "karaadd": (2, 0), "copyi": (3, 0), "copyd": (3, 1), "com_n": (3, 2),
-           "sumdiff_n": (5, 0), "nsumdiff_n": (5, 1), "lshift": (6, 0), "rshift": (6, 1)}
+           "sumdiff_n": (5, 0), "nsumdiff_n": (5, 1), "lshift": (6, 0), "rshift": (6, 1), "lshift1": (7, 0), "rshift1": (7, 1),
+           "addadd_n": (8, 0), "addsub_n": (8, 1), "subadd_n": (8, 2)}
 for i, nm in enumerate(LOGIC):
     CLASSES[nm] = (4, i)
 TWIN = {1: [G + "add_n.c", G + "sub_n.c"], 2: [G + "add_n.c", G + "sub_n.c", G + "add_1.c", G + "sub_1.c", G + "add.c", G + "sub.c", G + "cmp.c", G + "copyi.c", G + "zero.c"],
-        3: [G + "copyi.c", G + "copyd.c", G + "com_n.c"], 4: [G + x + ".c" for x in LOGIC], 5: [G + "sumdiff_n.c", G + "nsumdiff_n.c", G + "add_n.c", G + "sub_n.c"], 6: [G + "lshift.c", G + "rshift.c"]}
+        3: [G + "copyi.c", G + "copyd.c", G + "com_n.c"], 4: [G + x + ".c" for x in LOGIC], 5: [G + "sumdiff_n.c", G + "nsumdiff_n.c", G + "add_n.c", G + "sub_n.c"], 6: [G + "lshift.c", G + "rshift.c"],
+        7: [G + "lshift.c", G + "rshift.c"], 8: [G + "addadd_n.c", G + "addsub_n.c", G + "subadd_n.c", G + "add_n.c", G + "sub_n.c"]}
 BASE = ["assert.c", "memory.c", "tal-reent.c", "errno.c"]
 
 
@@ -52,7 +54,7 @@ def queries(ctx):
             ns = (1, 2, 3, 4, 5, 7, 9)
         else:
             ns = tuple(range(1, 18))
-        ovls = {1: (0, 1, 2), 2: (0,), 3: (0, 1), 4: (0, 1), 5: (0, 1), 6: (0, 1, 2)}[cls]
+        ovls = {1: (0, 1, 2), 2: (0,), 3: (0, 1), 4: (0, 1), 5: (0, 1), 6: (0, 1, 2), 7: (0, 1), 8: (0, 1, 2, 3)}[cls]
         for n in ns:
             for ovl in (ovls if (not quick or n in (3, 4, 9, 8)) else ovls[:1]):
                 q = Query("%s.%s.n%d.ovl%d" % (tag, name, n, ovl), "C14_kernel.c", TWIN[cls] + BASE,
@@ -80,7 +82,7 @@ ASSUMPTIONS = [
 ]
 MANIFEST = {
  "engine": "asm2c",
- "text": "Translation validation of x86-64 assembly kernels: every yasm (Intel syntax) kernel under mpn/x86_64/** whose routine has a harness class (add_n, sub_n, karasub, karaadd, copyi, copyd, com_n, the eight logic operations, sumdiff_n, nsumdiff_n, lshift, rshift) and whose instructions the translator covers is translated to C from the tree on every run and compared by CBMC with the portable C implementation of the same routine for every enumerated operand length and overlap layout and all limb contents (result limbs, returned carry, nothing written outside the destination, callee-saved registers restored). It does not matter whether the host CPU can execute the kernel.",
+ "text": "Translation validation of x86-64 assembly kernels: every yasm (Intel syntax) kernel under mpn/x86_64/** whose routine has a harness class (add_n, sub_n, karasub, karaadd, copyi, copyd, com_n, the eight logic operations, sumdiff_n, nsumdiff_n, lshift, rshift, lshift1, rshift1, addadd_n, addsub_n, subadd_n) and whose instructions the translator covers is translated to C from the tree on every run and compared by CBMC with the portable C implementation of the same routine for every enumerated operand length and overlap layout and all limb contents (result limbs, returned carry, nothing written outside the destination, callee-saved registers restored). It does not matter whether the host CPU can execute the kernel.",
  "note": "Bounds: lengths 1..9 (karasub 8..11) quick, 1..17 (8..19) thorough. Outside: the AT&T-syntax .asm kernels (m4; not parsed), kernels using SSE/AVX or other instructions the translator lacks (listed per run as not encoded), kernel classes without a harness (mul_1/addmul_1/mul_basecase/redc_1/divexact..., listed per run), the fat dispatcher, the per-CPU tuning tables and the --enable-alloca/--enable-assert build variants (not checked by this check).",
  "technique": "own x86-64 (yasm/Intel syntax) to C translator with ISA semantics regenerated from the tree on every run, bounded symbolic execution of translation and portable C twin with CBMC (SAT) for all limb contents at concrete lengths, native replay against the yasm-assembled real kernel",
 }
